@@ -12,7 +12,9 @@
 //!
 //! Known findings (tagged, never hidden):
 //!   call-immediate-sign-or-complex       CALL immediates that print with a sign or as a sum (DESIGN §7, 11)
-//!   delay-duration-start-read-as-qubit   DELAY without frame names whose duration starts like a qubit (NEW)
+//!   delay-prefix-plus-function-duration  DELAY without frame names whose duration is +f(..): the prefix plus prints
+//!                                        nothing and the grouping rule of the DELAY writer only looks at the outermost node (NEW;
+//!                                        residual of delay-duration-start-read-as-qubit, which /repo commit bf4c513 repaired)
 
 use super::c02::{self, AbsCtx, ExprMode, PhCtx};
 use crate::runner::{Outcome, Summary, Violation};
@@ -27,7 +29,7 @@ use serde_json::{json, Value};
 use std::str::FromStr;
 
 pub const FINDING_CALL: &str = "call-immediate-sign-or-complex";
-pub const FINDING_DELAY: &str = "delay-duration-start-read-as-qubit";
+pub const FINDING_DELAY: &str = "delay-prefix-plus-function-duration";
 
 fn contains_ph(v: &Value) -> bool {
     match v {
@@ -108,8 +110,19 @@ fn call_immediate_signed(is: &[Instruction]) -> bool {
 /// DELAY without frame names, re-parsed with more qubits than it was built with (the parser took the first
 /// tokens of the duration as qubits)
 fn delay_grew_qubits(built: &[Instruction], reparsed: &[Instruction]) -> bool {
+    use quil_rs::expression::{Expression, PrefixOperator};
+    // the residual shape: (one or more) prefix plus over a function call
+    fn plus_over_function(e: &Expression) -> bool {
+        match e {
+            Expression::Prefix(p) if p.operator == PrefixOperator::Plus => {
+                matches!(&*p.expression, Expression::FunctionCall(_)) || plus_over_function(&p.expression)
+            }
+            _ => false,
+        }
+    }
     let (built, reparsed) = (flat(built), flat(reparsed));
-    built.len() == reparsed.len()
+    built.iter().any(|i| matches!(i, Instruction::Delay(d) if d.frame_names.is_empty() && plus_over_function(&d.duration)))
+        && built.len() == reparsed.len()
         && built.iter().zip(reparsed.iter()).any(|(a, b)| match (a, b) {
             (Instruction::Delay(x), Instruction::Delay(y)) => {
                 x.frame_names.is_empty() && y.frame_names.is_empty() && y.qubits.len() > x.qubits.len()
